@@ -145,6 +145,30 @@ def run(prog, rep):
     n_exp = 0
     for e in effect_calls(prog, hv, is_append):
         arg = e.call.args[0]
+        if isinstance(e.raw.args[0], ast.Name) and not (isinstance(arg, ast.Call) and call_name(arg) == "ET.Element"):
+            # the element is built in one of several branches and appended once (`if a: el = ET.Element(t) elif b: el = ET.Element(m) ...; p.append(el)`):
+            # one export per construction, judged with the conditions of that construction
+            from ..dataflow import reaching_defs as _rd, def_value as _dv
+            from ..symtext import _guards_at as _ga
+            dsx = [d for d in _rd(e.x.g, e.inner, e.raw.args[0].id) if d.kind != "entry"]
+            vals = [_dv(d, e.raw.args[0].id) for d in dsx]
+            if len(dsx) >= 2 and all(isinstance(v, ast.Call) and call_name(v) == "ET.Element" and len(v.args) == 1 for v in vals):
+                for d, v in zip(dsx, vals):
+                    tag = e.x.text(v.args[0], d)
+                    gs = list(e.outer) + _ga(e.x, d)
+                    n_exp += 1
+                    m1 = re.match(r"^(.+)\.tag$", tag)
+                    m2 = re.match(r"^%s\._version_map\[(.+)\.tag\]$" % re.escape(hv.params[0]), tag) or \
+                        re.match(r"^%s\._version_map\.get\((.+)\.tag, \1\.tag\)$" % re.escape(hv.params[0]), tag)
+                    if m2:
+                        good = ("%s.tag in %s._version_map" % (m2.group(1), hv.params[0]), True) in gs
+                    elif m1:
+                        good = any(p0 and re.match(r"^%s\.tag in (?:\w+\.)?Property\.arguments_keys$" % re.escape(m1.group(1)), t0) for t0, p0 in gs)
+                    else:
+                        good = False
+                    rep.check(good, "TAB-11", "_handle_value exports %s under its table test" % tag[:50], "ok",
+                              "_handle_value creates element %s without the matching table test (conditions %s)" % (tag, gs), where(e.func, v))
+            continue
         if not (isinstance(arg, ast.Call) and call_name(arg) == "ET.Element" and len(arg.args) == 1):
             continue
         # the tag may be a local that is bound differently per table (`export_tag = e.tag` / `= self._version_map[e.tag]`): one case
@@ -207,7 +231,17 @@ def run(prog, rep):
     if app:
         nv = app[0].ast.value.args[0].id
         stores = [n for n in g.nodes if n.kind == "stmt" and isinstance(n.ast, ast.Assign) and unparse(n.ast.targets[0]) == "%s.text" % nv]
-        shapes = [(_id_shape(n.ast.value), n) for n in stores]
+        # the text may be prepared in a local first (`text = str(uuid4()) ... text = str(UUID(old)) ... new.text = text`): its definitions are the stores
+        from ..dataflow import reaching_defs as _rd8, def_value as _dv8
+        via = []
+        for n in stores:
+            if isinstance(n.ast.value, ast.Name):
+                ds8 = [d for d in _rd8(g, n, n.ast.value.id) if d.kind == "stmt" and isinstance(d.ast, ast.Assign) and _dv8(d, n.ast.value.id) is not None]
+                if ds8 and len(ds8) == len(list(_rd8(g, n, n.ast.value.id))):
+                    via += [(d, _dv8(d, n.ast.value.id)) for d in ds8]
+                    continue
+            via.append((n, n.ast.value))
+        shapes = [(_id_shape(v8), n8) for n8, v8 in via]
         fresh = [n for sh, n in shapes if sh == ("fresh",)]
         parse = [n for sh, n in shapes if sh and sh[0] == "parse"]
         other = [n for sh, n in shapes if sh is None]
